@@ -81,13 +81,33 @@ func cacheKey(text, solver string) string {
 
 // solveOne decides one obligation with the portfolio.
 func solveOne(o *Obligation, prelude string, opts SolveOpts) *SolveResult {
+	if o.Levels > 1 && !o.MustFail {
+		// try the narrow axiom-instance set first: fewer assumptions, so "unsat" is still a proof
+		save := o.Levels
+		o.Levels = 1
+		o2 := opts
+		if o2.TimeoutS > 10 {
+			o2.TimeoutS = 10
+		}
+		o2.TwoSolver = false
+		r := solveOneLevel(o, prelude, o2, "_l0")
+		o.Levels = save
+		if r.Status == "unsat" {
+			r.Tried = append(r.Tried, "narrow-instance-level")
+			return r
+		}
+	}
+	return solveOneLevel(o, prelude, opts, "")
+}
+
+func solveOneLevel(o *Obligation, prelude string, opts SolveOpts, suffix string) *SolveResult {
 	text := o.SMT(prelude, true)
 	name := identSan.ReplaceAllString(o.ID, "_")
 	if len(name) > 180 {
 		h := sha256.Sum256([]byte(name))
 		name = name[:160] + hex.EncodeToString(h[:6])
 	}
-	file := filepath.Join(opts.WorkDir, "smt", name+".smt2")
+	file := filepath.Join(opts.WorkDir, "smt", name+suffix+".smt2")
 	os.MkdirAll(filepath.Dir(file), 0o755)
 	os.WriteFile(file, []byte(text), 0o644)
 	res := &SolveResult{File: file}
@@ -238,8 +258,52 @@ func (o *Obligation) Discharged() bool {
 		return false
 	}
 	if o.MustFail {
+		if o.Kind == "cover-return" {
+			// individually informational (dead code exists); see deadFunctions
+			return true
+		}
 		// cover / vacuity probe: must NOT be unsat
 		return o.Result.Status != "unsat"
 	}
 	return o.Result.Status == "unsat"
+}
+
+// deadFunctions returns, per function, the cover-return probes when ALL returns of the
+// function are unreachable under the assumptions (a contradictory contract), and the
+// list of individually unreachable returns (dead code, informational).
+func deadFunctions(obls []*Obligation) (allDead []*Obligation, deadReturns []string) {
+	type agg struct {
+		n, dead int
+		first   *Obligation
+	}
+	m := map[string]*agg{}
+	for _, o := range obls {
+		if o.Kind != "cover-return" || o.Result == nil {
+			continue
+		}
+		key := o.Func + splitSuffix(o.ID)
+		a := m[key]
+		if a == nil {
+			a = &agg{first: o}
+			m[key] = a
+		}
+		a.n++
+		if o.Result.Status == "unsat" {
+			a.dead++
+			deadReturns = append(deadReturns, o.ID+" "+o.Pos)
+		}
+	}
+	for _, a := range m {
+		if a.n > 0 && a.dead == a.n {
+			allDead = append(allDead, a.first)
+		}
+	}
+	return
+}
+
+func splitSuffix(id string) string {
+	if i := strings.LastIndex(id, "/"); i >= 0 && strings.Contains(id[i:], "=") {
+		return id[i:]
+	}
+	return ""
 }
